@@ -9,6 +9,9 @@ import Driver.C15
 import Driver.C19
 import Driver.C18
 import Driver.Alloc
+import Driver.C07
+import Driver.C08
+import Driver.C08mc
 
 open Driver
 
@@ -28,6 +31,13 @@ def main (args : List String) : IO Unit :=
   | ["barrier"] => runLoop ({} : BarSt) barrierStep
   | ["topo"] => runLoop ({} : TopoState) c19
   | ["alloc"] => runLoop ({} : AllocSt) allocStep
+  | ["term"] => runLoop ({} : TermSt) (termStep false)
+  | ["termfix"] => runLoop ({} : TermSt) (termStep true)
+  | ["shutdown00"] => runLoop (RootSim.Shutdown.St.init 1) (shutdownStep { closeFix := false, zeroFix := false })
+  | ["shutdown10"] => runLoop (RootSim.Shutdown.St.init 1) (shutdownStep { closeFix := true, zeroFix := false })
+  | ["shutdown01"] => runLoop (RootSim.Shutdown.St.init 1) (shutdownStep { closeFix := false, zeroFix := true })
+  | ["shutdown11"] => runLoop (RootSim.Shutdown.St.init 1) (shutdownStep { closeFix := true, zeroFix := true })
+  | ["shutdownmc"] => runLoop () (fun st toks => (st, shutdownMc toks))
   | ["heap"] => runLoop ({} : HeapSt) heapStep
   | ["par"] => runLoop ({} : Driver.Run.Sys) Driver.Run.parStep
   | ["seq"] => runLoop ({} : Driver.Run.SeqSys) Driver.Run.seqStep
